@@ -4,7 +4,7 @@ from .C01 import ASSUME
 
 TYPES = ["Model", "Proc", "Task", "Message", "Package", "Event"]
 # (rows, conds, exprs per cond, order?, paging?)
-QUICK_SHAPES = [(2, 1, 1, 0, 0), (3, 1, 1, 0, 0), (2, 1, 2, 0, 0), (2, 2, 1, 0, 0), (2, 0, 0, 1, 0), (3, 0, 0, 1, 0), (2, 1, 1, 1, 1), (3, 0, 0, 0, 1)]
+QUICK_SHAPES = [(2, 1, 1, 0, 0), (3, 1, 1, 0, 0), (2, 1, 2, 0, 0), (2, 2, 1, 0, 0), (2, 0, 0, 1, 0), (3, 0, 0, 1, 0), (2, 1, 1, 1, 1), (3, 0, 0, 0, 1), (2, 0, 0, 2, 0), (3, 0, 0, 2, 0)]
 THOROUGH_SHAPES = QUICK_SHAPES + [(3, 1, 2, 0, 0), (3, 2, 1, 0, 0), (2, 2, 2, 0, 0), (3, 1, 1, 1, 1), (3, 1, 2, 1, 0)]
 
 
@@ -13,7 +13,7 @@ def main(tier, seed):
     jobs = [("props.store", "roundtrip", (t, "C10")) for t in TYPES]
     shapes = QUICK_SHAPES if tier == "quick" else THOROUGH_SHAPES
     for sh in shapes:
-        heavy = sh[1] * sh[2] >= 2 or (sh[3] and sh[4])
+        heavy = sh[1] * sh[2] >= 2 or (sh[3] and sh[4]) or sh[3] >= 2
         parts = (4 if tier == "quick" else 8) if heavy else 1
         for i in range(parts):
             jobs.append(("props.store", "query", ("C10", sh, 1500 if tier == "quick" else 20000, (i, parts) if parts > 1 else None)))
